@@ -13,7 +13,7 @@ import tempfile
 from .. import common
 from .. import gen_text as gt
 from ..gen_values import gen_module, gen_config, make_encoder, strict_parser
-from ..normalise import compare, Rules, snapshot
+from ..normalise import clone, compare, Rules, snapshot
 from ..textrun import load
 from ..trace import traced_parser
 
@@ -260,6 +260,22 @@ def dump_case(rec, pvl, key, tmp):
                       {"exc": type(e).__name__}, {"seed": key, "cfg": cfg},
                       repr(e)[:200])
         return
+    if dialect == "PDS3":
+        # keyword arguments of dump / dumps configure the default encoder:
+        # the same text as the encoder built by hand with them
+        try:
+            kw_text = pvl.dumps(clone(gm.module), **cfg)
+            b = io.BytesIO()
+            rk = pvl.dump(clone(gm.module), b, **cfg)
+            targets["BytesIO via keyword arguments"] = (
+                rk, b.getvalue(), len(want.encode("utf-8")))
+        except Exception as e:
+            kw_text = f"raised {type(e).__name__}: {e}"
+        rec.count("dumps_with_keyword_arguments")
+        if kw_text != want:
+            rec.violation(CHECK, dialect, "dumps-keyword-arguments-differ-from-encoder",
+                          {}, {"seed": key, "cfg": cfg, "want": want[:400],
+                               "got": kw_text[:400]}, "")
     for name, (ret, written, want_len) in targets.items():
         rec.count(f"dump_target[{name}]")
         if written != want.encode("utf-8"):
